@@ -82,6 +82,29 @@ claim(
     "DESIGN.md section 5 / C04",
 )
 
+claim(
+    "C05",
+    "exploration",
+    "D-lattice",
+    "bounded-exhaustive input lattice evaluated by the real likelihood classes against 50-digit mpmath reference densities",
+    "3 likelihood classes x sigma patterns 1e-6..1e3 (and mixed) x forward models {identity, linear, quadratic} with exact Jacobians x input forms x every residual vector in A^n (n<=3; windows for n=5) "
+    "over A = {0, +-.5, +-3, +-30, +-300, +-1e4} sigma: value and gradient vs. mpmath closed forms on the same floats, cost/cost_gradient bit-for-bit negatives, normalisation over the data by mp.quad, "
+    "second moment = sigma^2. Exhaustive over the stated lattice; the tests compare a handful of random points with scipy.",
+    "forward-model output and Jacobian taken as exact inputs; n <= 5; mpmath trusted",
+    "DESIGN.md section 5 / C05",
+)
+claim(
+    "C06",
+    "exploration",
+    "D-lattice + A-choice-tree (scripted module rng)",
+    "bounded-exhaustive enumeration of prior configurations/index layouts with the module generator scripted at known quantiles, against per-variable reference laws",
+    "Per class: hyper-parameter lattice x theta inside/edge/outside (+-1 ulp) x input forms; every ordered selection of indices; joint priors: EVERY permutation of n<=4 (thorough 5) variables cut into <=3 blocks x "
+    "3^k type assignments (2979 / +24120 configurations): value = sum of per-variable reference log-densities, gradient/bounds/sample routed by index, F_i(sample_i) = u for the scripted quantile u; "
+    "posterior = likelihood + prior (value, gradient, cost, cost-gradient; <=2 ulp); generate_initial_guesses over all orderings of <=5 scripted draws and all n_guesses.",
+    "numpy's own mapping from variates to distributions is trusted (the scripted generator returns the quantile-u variate of the requested law and records the arguments)",
+    "DESIGN.md section 5 / C06",
+)
+
 ALL = [f"C{i:02d}" for i in range(1, 21)]
 PENDING_REASON = "check under construction in this session (design in DESIGN.md section 5); not yet claimed"
 
